@@ -358,6 +358,73 @@ class World:
                             f"raised {e!r}", "save")
         self.store[key] = m.copy()
 
+    def op_load_into(self):
+        """Grid.load on a live grid: raw cells from a file or stream of the
+        right length replace the grid's cells; a file of another length (cut
+        short by a crash or a full disk, or belonging to another raster), an
+        empty or a missing one is refused - and the grid is then still a grid
+        of its own shape and type that saves and loads back."""
+        cs = self.cs
+        ent = self.pick()
+        g, m, gid = ent
+        n = m.nrows * m.ncols
+        how = cs.choice("how", ["valid", "short", "long", "empty", "missing",
+                                "valid", "short"])
+        nfile = {"valid": n, "short": max(n - 1 - cs.draw("cut", 3), 0),
+                 "long": n + 1 + cs.draw("more", 4), "empty": 0,
+                 "missing": 0}[how]
+        if how == "short" and nfile == n:
+            nfile = 0
+        raw = self.root / "raw_cells.bin"
+        payload = gen_payload(cs, m.dtype.newbyteorder("="), max(nfile, 1),
+                              "lp")[:nfile]
+        if raw.exists():
+            raw.unlink()
+        if how != "missing":
+            payload.tofile(str(raw))
+        via = cs.choice("via", ["str", "path", "stream"])
+        self.log.ev("load_into", gid, how, nfile, via)
+        raised = None
+        with warnings.catch_warnings(), np.errstate(all="ignore"):
+            warnings.simplefilter("ignore")
+            try:
+                if via == "stream" and how != "missing":
+                    with open(raw, "rb") as fd:
+                        g.load(fd)
+                else:
+                    g.load(str(raw) if via != "path" else raw)
+            except Exception as e:
+                raised = repr(e)
+        if how == "valid" and raised is not None:
+            raise Violation("load_failed", f"grid#{gid}.load of a file with "
+                            f"exactly {n} cells raised {raised}", "load_into")
+        if how != "valid" and raised is None:
+            raise Violation("invalid_load_accepted", f"grid#{gid}.load of a "
+                            f"{how} file ({nfile} cells for {n}) did not "
+                            "raise", "load_into")
+        real = np.asarray(g.data)
+        if real.shape != (m.nrows, m.ncols) or \
+                np.dtype(real.dtype).itemsize != m.dtype.itemsize or \
+                np.dtype(real.dtype).kind != m.dtype.kind:
+            raise Violation("grid_damaged_by_rejected_load" if raised else
+                            "load_changed_geometry_or_type",
+                            f"grid#{gid} ({m.nrows}x{m.ncols} {m.dtype}) after "
+                            f"load of a {how} file: shape {real.shape} dtype "
+                            f"{real.dtype}", "load_into")
+        if raised is not None:
+            self.ctx.hit("fault.rejected_load_into_live_grid")
+        else:
+            self.ctx.hit("probe.load_into_live_grid")
+            unbounded = not (getattr(g, "mindata", -np.inf) > -np.inf or
+                             getattr(g, "maxdata", np.inf) < np.inf)
+            if unbounded and real.tobytes() != payload.astype(
+                    real.dtype).tobytes():
+                raise Violation("cells_differ", f"grid#{gid}.load: cells are "
+                                "not the file's cells", "load_into")
+        ent[1] = GModel(m.nrows, m.ncols, m.cellsize, m.xll, m.yll, m.dtype,
+                        m.nodata, real.copy())
+        self.mutated = True
+
     def op_disk_fault_save(self):
         """The disk fills up (file-size limit, hysim/faults.py) during a save:
         it either raises - nothing is then concluded about that stem until it
@@ -1116,7 +1183,7 @@ class World:
 
 
 OPS = [("new", 8, None), ("mutate", 10, "g"), ("save", 9, "g"),
-       ("disk_fault_save", 3, "g"),
+       ("disk_fault_save", 3, "g"), ("load_into", 3, "g"),
        ("load", 9, "s"), ("foreign", 4, None), ("dict_roundtrip", 5, "g"),
        ("clone", 6, "g"), ("clone_dtype", 5, "g"), ("clip", 6, "g"),
        ("chdir", 2, None), ("cat_caller_edits_grid", 2, "c"),
